@@ -92,7 +92,14 @@ class BuckGophermapHandler(BaseHandler):
                         # it in for gopher+.
                         # (URL: selectors name no file; root + "URL:..." would
                         # even be a path next to the document root.)
-                        if selector[0] == "/" and self.vfs.exists(selector):
+                        # A link that climbs (a ".." component) is not looked
+                        # up either: that would inspect, and describe, a file
+                        # outside the document root.
+                        if (
+                            selector[0] == "/"
+                            and ".." not in selector.split("/")
+                            and self.vfs.exists(selector)
+                        ):
                             entry.populatefromvfs(self.vfs, selector)
                     self.entries.append(entry)
                 else:  # Info line
